@@ -127,6 +127,19 @@ def run_case(case, rng):
     case.count("lrtdp_calls")
     if res is case.FAIL:
         return
+    if rng.random() < 0.3:
+        # ... and the result object is only read AFTER the same planner has run on another problem
+        import copy
+        sib2 = copy.deepcopy(sp)
+        extra2 = [s for s in sib2.states if s not in sib2.flag]
+        if extra2:
+            sib2.flag = set(sib2.flag) | {rng.choice(extra2)}
+            backup = dict(stats)
+            stats["warmup"] = True
+            case.call("LRTDP.plan_on(sibling, afterwards)", planner.plan_on, Bd.build(sib2, rep))
+            stats.clear()
+            stats.update(backup)
+            case.count("result_read_after_reuse")
     branches = bool(((arr.T > 0).sum(-1) >= 2).any() or (arr.avail.sum(-1) >= 2).any())
     case.nontrivial = stats["steps"] >= 1 and branches
     case.sig(len(arr.S), len(arr.A), gamma, tuple(sp.meta.get("abs_kinds", [])), hk, margin, rao, seed,
